@@ -7,6 +7,7 @@ import (
 	"io/ioutil"
 	"path/filepath"
 	"strings"
+	"time"
 
 	"github.com/modernizing/coca/pkg/application/call"
 	"github.com/modernizing/coca/pkg/application/rcall"
@@ -40,7 +41,7 @@ var Check = &run.Check{
 		"`coca rcall` (rcall.dot, rcallmap.json) and `coca call -l` for every Nth case; non-trivial = the target has >= 2 call sites from project methods and some direct caller has callers itself; " +
 		"distinct = hash of (mode, adjacency structure, target index)",
 	Assumptions: []string{
-		"every method full name is declared once (overloads are out of scope, DESIGN §7)",
+		"overloads share one full name: the reverse relation is decided by name (callers of a name = all call sites of that name; `call -l` forward part follows the last declaration, as the method table does)",
 		"names contain no backslash",
 	},
 	Cases: cases,
@@ -50,14 +51,16 @@ var Check = &run.Check{
 		}
 		return 200
 	},
-	Run: runCase,
+	Run:                 runCase,
+	CaseWatchdog:        30 * time.Second, // a case takes milliseconds
+	WatchdogIsViolation: true,             // termination clause of the statement
 }
 
 func runCase(c *run.Ctx, o *run.Outcome) {
 	r := c.Rng
-	opts := modelgen.Opts{MaxClasses: 8, MaxMethods: 40, MaxOut: 6, Quotes: true}
+	opts := modelgen.Opts{MaxClasses: 8, MaxMethods: 40, MaxOut: 6, Quotes: true, Overloads: true, DefaultPkg: true}
 	if r.Chance(1, 2) {
-		opts = modelgen.Opts{MaxClasses: 4, MaxMethods: 10, MaxOut: 3, Quotes: true}
+		opts = modelgen.Opts{MaxClasses: 4, MaxMethods: 10, MaxOut: 3, Quotes: true, Overloads: true, DefaultPkg: true}
 	}
 	m := modelgen.Generate(r.Fork(), opts)
 	deps := common.ToCoca(m)
